@@ -350,3 +350,19 @@ func TestF15_ExactNamedInputLosesToConversion(t *testing.T) {
 		}
 	}
 }
+
+// F16 (C02): a memoized run-once converter hands out its cached outputs in a later call in which
+// one of its own inputs cannot be satisfied, so an unsatisfiable call succeeds.
+func TestF16_MemoizedConverterMasksMissingArgument(t *testing.T) {
+	conv := am.MustFunc(am.NewFunc(func(T2, T4) T1 { return T1{7} }, am.FuncOnce()))
+	f := am.MustFunc(am.NewFunc(func(T1) int { return 1 }))
+	// call 1: everything supplied, the converter runs and is memoized
+	if res := f.Call(am.Typed(T2{1}, T4{2}), am.ConverterFunc(conv)); res.Err() != nil {
+		t.Fatal(res.Err())
+	}
+	// call 2: T4 is not supplied, T1 cannot be derived
+	res := f.Call(am.Typed(T2{1}), am.ConverterFunc(conv))
+	if res.Err() == nil {
+		t.Fatalf("T1 is not derivable without T4, but the call succeeded from the memoized result")
+	}
+}
